@@ -136,6 +136,10 @@ class ScriptedError:
     def estimate_error_norm(self, state, previous, proposed, dt, atol, rtol, damp):
         import jax.numpy as jnp
 
+        if not float(dt) > 0.0:
+            # a controller whose (admissible) gains shrink the step even after accepted attempts has crawled down to an
+            # underflowed step: same situation as a loop-budget overrun (the partial trace is still judged)
+            raise BudgetExceeded("step size underflowed to zero")
         ep = (self.hadm(float(previous.t)) / float(dt)) ** self.gamma
         self.log.add(ev="error", prev=int(previous.uid), prop=int(proposed.uid), dt=float(dt), ep=float(ep))
         return jnp.asarray(ep), state
